@@ -3,7 +3,7 @@
 (* TLAPS proof - for ANY sets of writers and readers, any number of pages, *)
 (* threads and sessions, and unbounded generations - that the quirk-free   *)
 (* specification WhisperFile keeps                                         *)
-(*   Mutex, LockLifetime, NoLostUpdate                          (C13)      *)
+(*   Mutex, LockLifetime, NoLostUpdate, ReaderUniform           (C13)      *)
 (*   SyncedEqualsView, CleanPagesFresh              (page level of C05)    *)
 (* TLC checks the same invariants exhaustively, but only for the small     *)
 (* constants of the .cfg files.  Inv is the inductive invariant; TLC also  *)
@@ -12,11 +12,12 @@
 (* change of the specification that breaks the argument points at the      *)
 (* action and the clause that fail.                                        *)
 (***************************************************************************)
-EXTENDS WhisperFile, TLAPS
+EXTENDS WhisperFile, TLAPS, FiniteSetTheorems
 
 ASSUME QuirkFree == FQuirks = {}
 ASSUME FreeIsNoProc == "free" \notin Procs
 ASSUME PagesNat == NPages \in Nat /\ NPages >= 1
+ASSUME Disjoint == Writers \cap Readers = {}
 
 PcStates == {"idle", "locking", "hdr", "open", "syncing", "synced"}
 
@@ -27,6 +28,7 @@ TypeInv == /\ pc \in [Procs -> PcStates]
            /\ dirty \in [Procs -> SUBSET Pages]
            /\ val \in [Procs -> Int]
            /\ commits \in Nat
+           /\ seen \in [Procs -> [Threads -> SUBSET Int]]
            /\ mode \in [Procs -> {"open", "create"}]
            /\ exists \in BOOLEAN /\ hdrOk \in BOOLEAN
 
@@ -63,17 +65,24 @@ CreatorI == CreatorPending => (commits = 0 /\ ~hdrOk /\ \A q \in Procs : pc[q] \
 
 UniqueI == \A p, q \in Procs : (mode[p] = "create" /\ pc[p] \in {"locking", "hdr"} /\ mode[q] = "create" /\ pc[q] \in {"locking", "hdr"}) => p = q
 
-Inv == TypeInv /\ LockI /\ QuietI /\ DiskI /\ SyncingI /\ OpenI /\ WriterI /\ ExistsI /\ CreatorI /\ UniqueI /\ SyncedI
+ReaderI == \A p \in Procs : \A t \in Threads :
+              /\ pc[p] \in {"locking", "hdr"} => seen[p][t] = {}
+              /\ pc[p] \in {"open", "syncing", "synced"} => seen[p][t] \subseteq {commits}
+              /\ \E c \in Int : seen[p][t] \subseteq {c}
+              /\ p \notin Readers => seen[p][t] = {}
+              /\ ~exists => seen[p][t] = {}
+
+Inv == ReaderI /\ TypeInv /\ LockI /\ QuietI /\ DiskI /\ SyncingI /\ OpenI /\ WriterI /\ ExistsI /\ CreatorI /\ UniqueI /\ SyncedI
 
 
 LEMMA InitInv == Init => Inv
-  BY FreeIsNoProc, PagesNat DEF Init, Inv, TypeInv, LockI, QuietI, DiskI, SyncingI, OpenI, WriterI, ExistsI, CreatorI, CreatorPending, UniqueI, SyncedI,
+  BY FreeIsNoProc, PagesNat DEF Init, Inv, TypeInv, LockI, QuietI, DiskI, SyncingI, OpenI, WriterI, ExistsI, CreatorI, CreatorPending, UniqueI, SyncedI, ReaderI,
      PcStates, HasHandle, Unread, Pages, Damages
 
 LEMMA NextInv == Inv /\ [Next]_vars => Inv'
 <1> SUFFICES ASSUME Inv, [Next]_vars PROVE Inv'
   OBVIOUS
-<1> USE FreeIsNoProc, QuirkFree, PagesNat DEF Inv, TypeInv, LockI, QuietI, DiskI, SyncingI, OpenI, WriterI, ExistsI, CreatorI, CreatorPending, UniqueI, SyncedI,
+<1> USE FreeIsNoProc, QuirkFree, PagesNat, Disjoint DEF Inv, TypeInv, LockI, QuietI, DiskI, SyncingI, OpenI, WriterI, ExistsI, CreatorI, CreatorPending, UniqueI, SyncedI, ReaderI,
      PcStates, HasHandle, Unread, Pages, aux
 <1>1. ASSUME NEW p \in Procs, OpenFd(p) PROVE Inv'
   <2>1. TypeInv'
@@ -98,8 +107,10 @@ LEMMA NextInv == Inv /\ [Next]_vars => Inv'
     BY <1>1 DEF OpenFd
   <2>11. SyncedI'
     BY <1>1 DEF OpenFd
+  <2>12. ReaderI'
+    BY <1>1 DEF OpenFd
   <2> QED
-    BY <2>1, <2>2, <2>3, <2>4, <2>5, <2>6, <2>7, <2>8, <2>9, <2>10, <2>11
+    BY <2>1, <2>2, <2>3, <2>4, <2>5, <2>6, <2>7, <2>8, <2>9, <2>10, <2>11, <2>12
 <1>2. ASSUME NEW p \in Procs, CreateFd(p) PROVE Inv'
   <2>1. TypeInv'
     BY <1>2 DEF CreateFd
@@ -123,8 +134,10 @@ LEMMA NextInv == Inv /\ [Next]_vars => Inv'
     BY <1>2 DEF CreateFd
   <2>11. SyncedI'
     BY <1>2 DEF CreateFd
+  <2>12. ReaderI'
+    BY <1>2 DEF CreateFd
   <2> QED
-    BY <2>1, <2>2, <2>3, <2>4, <2>5, <2>6, <2>7, <2>8, <2>9, <2>10, <2>11
+    BY <2>1, <2>2, <2>3, <2>4, <2>5, <2>6, <2>7, <2>8, <2>9, <2>10, <2>11, <2>12
 <1>3. ASSUME NEW p \in Procs, Acquire(p) PROVE Inv'
   <2>1. TypeInv'
     BY <1>3 DEF Acquire, NoLock
@@ -148,8 +161,10 @@ LEMMA NextInv == Inv /\ [Next]_vars => Inv'
     BY <1>3 DEF Acquire, NoLock
   <2>11. SyncedI'
     BY <1>3 DEF Acquire, NoLock
+  <2>12. ReaderI'
+    BY <1>3 DEF Acquire, NoLock
   <2> QED
-    BY <2>1, <2>2, <2>3, <2>4, <2>5, <2>6, <2>7, <2>8, <2>9, <2>10, <2>11
+    BY <2>1, <2>2, <2>3, <2>4, <2>5, <2>6, <2>7, <2>8, <2>9, <2>10, <2>11, <2>12
 <1>4. ASSUME NEW p \in Procs, ReadHeader(p) PROVE Inv'
   <2>1. TypeInv'
     BY <1>4 DEF ReadHeader
@@ -173,8 +188,10 @@ LEMMA NextInv == Inv /\ [Next]_vars => Inv'
     BY <1>4 DEF ReadHeader
   <2>11. SyncedI'
     BY <1>4 DEF ReadHeader
+  <2>12. ReaderI'
+    BY <1>4 DEF ReadHeader
   <2> QED
-    BY <2>1, <2>2, <2>3, <2>4, <2>5, <2>6, <2>7, <2>8, <2>9, <2>10, <2>11
+    BY <2>1, <2>2, <2>3, <2>4, <2>5, <2>6, <2>7, <2>8, <2>9, <2>10, <2>11, <2>12
 <1>5. ASSUME NEW p \in Procs, InitFile(p) PROVE Inv'
   <2>1. TypeInv'
     BY <1>5 DEF InitFile
@@ -198,8 +215,10 @@ LEMMA NextInv == Inv /\ [Next]_vars => Inv'
     BY <1>5 DEF InitFile
   <2>11. SyncedI'
     BY <1>5 DEF InitFile
+  <2>12. ReaderI'
+    BY <1>5 DEF InitFile
   <2> QED
-    BY <2>1, <2>2, <2>3, <2>4, <2>5, <2>6, <2>7, <2>8, <2>9, <2>10, <2>11
+    BY <2>1, <2>2, <2>3, <2>4, <2>5, <2>6, <2>7, <2>8, <2>9, <2>10, <2>11, <2>12
 <1>6. ASSUME NEW p \in Procs, Finalize(p) PROVE Inv'
   <2>1. TypeInv'
     BY <1>6 DEF Finalize
@@ -223,8 +242,10 @@ LEMMA NextInv == Inv /\ [Next]_vars => Inv'
     BY <1>6 DEF Finalize
   <2>11. SyncedI'
     BY <1>6 DEF Finalize
+  <2>12. ReaderI'
+    BY <1>6 DEF Finalize
   <2> QED
-    BY <2>1, <2>2, <2>3, <2>4, <2>5, <2>6, <2>7, <2>8, <2>9, <2>10, <2>11
+    BY <2>1, <2>2, <2>3, <2>4, <2>5, <2>6, <2>7, <2>8, <2>9, <2>10, <2>11, <2>12
 <1>7. ASSUME NEW p \in Procs, NEW pg \in Pages, ReadPage(p, pg) PROVE Inv'
   <2>1. TypeInv'
     BY <1>7 DEF ReadPage
@@ -248,8 +269,10 @@ LEMMA NextInv == Inv /\ [Next]_vars => Inv'
     BY <1>7 DEF ReadPage
   <2>11. SyncedI'
     BY <1>7 DEF ReadPage
+  <2>12. ReaderI'
+    BY <1>7 DEF ReadPage
   <2> QED
-    BY <2>1, <2>2, <2>3, <2>4, <2>5, <2>6, <2>7, <2>8, <2>9, <2>10, <2>11
+    BY <2>1, <2>2, <2>3, <2>4, <2>5, <2>6, <2>7, <2>8, <2>9, <2>10, <2>11, <2>12
 <1>8. ASSUME NEW p \in Procs, NEW pg \in Pages, WStamp(p, pg) PROVE Inv'
   <2>1. TypeInv'
     BY <1>8 DEF WStamp
@@ -273,8 +296,10 @@ LEMMA NextInv == Inv /\ [Next]_vars => Inv'
     BY <1>8 DEF WStamp
   <2>11. SyncedI'
     BY <1>8 DEF WStamp
+  <2>12. ReaderI'
+    BY <1>8 DEF WStamp
   <2> QED
-    BY <2>1, <2>2, <2>3, <2>4, <2>5, <2>6, <2>7, <2>8, <2>9, <2>10, <2>11
+    BY <2>1, <2>2, <2>3, <2>4, <2>5, <2>6, <2>7, <2>8, <2>9, <2>10, <2>11, <2>12
 <1>9. ASSUME NEW p \in Procs, NEW pg \in Pages, FlushPage(p, pg) PROVE Inv'
   <2>1. TypeInv'
     BY <1>9 DEF FlushPage
@@ -298,8 +323,10 @@ LEMMA NextInv == Inv /\ [Next]_vars => Inv'
     BY <1>9 DEF FlushPage
   <2>11. SyncedI'
     BY <1>9 DEF FlushPage
+  <2>12. ReaderI'
+    BY <1>9 DEF FlushPage
   <2> QED
-    BY <2>1, <2>2, <2>3, <2>4, <2>5, <2>6, <2>7, <2>8, <2>9, <2>10, <2>11
+    BY <2>1, <2>2, <2>3, <2>4, <2>5, <2>6, <2>7, <2>8, <2>9, <2>10, <2>11, <2>12
 <1>10. ASSUME NEW p \in Procs, NEW pg \in Pages, NEW t \in Threads, Observe(p, t, pg) PROVE Inv'
   <2>1. TypeInv'
     BY <1>10 DEF Observe
@@ -323,8 +350,10 @@ LEMMA NextInv == Inv /\ [Next]_vars => Inv'
     BY <1>10 DEF Observe
   <2>11. SyncedI'
     BY <1>10 DEF Observe
+  <2>12. ReaderI'
+    BY <1>10 DEF Observe
   <2> QED
-    BY <2>1, <2>2, <2>3, <2>4, <2>5, <2>6, <2>7, <2>8, <2>9, <2>10, <2>11
+    BY <2>1, <2>2, <2>3, <2>4, <2>5, <2>6, <2>7, <2>8, <2>9, <2>10, <2>11, <2>12
 <1>11. ASSUME NEW p \in Procs, WLoad(p) PROVE Inv'
   <2>1. TypeInv'
     BY <1>11 DEF WLoad
@@ -348,8 +377,10 @@ LEMMA NextInv == Inv /\ [Next]_vars => Inv'
     BY <1>11 DEF WLoad
   <2>11. SyncedI'
     BY <1>11 DEF WLoad
+  <2>12. ReaderI'
+    BY <1>11 DEF WLoad
   <2> QED
-    BY <2>1, <2>2, <2>3, <2>4, <2>5, <2>6, <2>7, <2>8, <2>9, <2>10, <2>11
+    BY <2>1, <2>2, <2>3, <2>4, <2>5, <2>6, <2>7, <2>8, <2>9, <2>10, <2>11, <2>12
 <1>12. ASSUME NEW p \in Procs, SyncStart(p) PROVE Inv'
   <2>1. TypeInv'
     BY <1>12 DEF SyncStart
@@ -373,8 +404,10 @@ LEMMA NextInv == Inv /\ [Next]_vars => Inv'
     BY <1>12 DEF SyncStart
   <2>11. SyncedI'
     BY <1>12 DEF SyncStart
+  <2>12. ReaderI'
+    BY <1>12 DEF SyncStart
   <2> QED
-    BY <2>1, <2>2, <2>3, <2>4, <2>5, <2>6, <2>7, <2>8, <2>9, <2>10, <2>11
+    BY <2>1, <2>2, <2>3, <2>4, <2>5, <2>6, <2>7, <2>8, <2>9, <2>10, <2>11, <2>12
 <1>13. ASSUME NEW p \in Procs, SyncDone(p) PROVE Inv'
   <2>1. TypeInv'
     BY <1>13 DEF SyncDone
@@ -398,8 +431,10 @@ LEMMA NextInv == Inv /\ [Next]_vars => Inv'
     BY <1>13 DEF SyncDone
   <2>11. SyncedI'
     BY <1>13 DEF SyncDone
+  <2>12. ReaderI'
+    BY <1>13 DEF SyncDone
   <2> QED
-    BY <2>1, <2>2, <2>3, <2>4, <2>5, <2>6, <2>7, <2>8, <2>9, <2>10, <2>11
+    BY <2>1, <2>2, <2>3, <2>4, <2>5, <2>6, <2>7, <2>8, <2>9, <2>10, <2>11, <2>12
 <1>14. ASSUME NEW p \in Procs, Close(p) PROVE Inv'
   <2>1. TypeInv'
     BY <1>14 DEF Close
@@ -423,8 +458,10 @@ LEMMA NextInv == Inv /\ [Next]_vars => Inv'
     BY <1>14 DEF Close
   <2>11. SyncedI'
     BY <1>14 DEF Close
+  <2>12. ReaderI'
+    BY <1>14 DEF Close
   <2> QED
-    BY <2>1, <2>2, <2>3, <2>4, <2>5, <2>6, <2>7, <2>8, <2>9, <2>10, <2>11
+    BY <2>1, <2>2, <2>3, <2>4, <2>5, <2>6, <2>7, <2>8, <2>9, <2>10, <2>11, <2>12
 <1>15. ASSUME NEW p \in Procs, Crash(p) PROVE Inv'
   <2>1. TypeInv'
     BY <1>15 DEF Crash
@@ -448,8 +485,10 @@ LEMMA NextInv == Inv /\ [Next]_vars => Inv'
     BY <1>15 DEF Crash
   <2>11. SyncedI'
     BY <1>15 DEF Crash
+  <2>12. ReaderI'
+    BY <1>15 DEF Crash
   <2> QED
-    BY <2>1, <2>2, <2>3, <2>4, <2>5, <2>6, <2>7, <2>8, <2>9, <2>10, <2>11
+    BY <2>1, <2>2, <2>3, <2>4, <2>5, <2>6, <2>7, <2>8, <2>9, <2>10, <2>11, <2>12
 <1>16. ASSUME FlipHeader PROVE Inv'
   <2>1. TypeInv'
     BY <1>16 DEF FlipHeader
@@ -473,8 +512,10 @@ LEMMA NextInv == Inv /\ [Next]_vars => Inv'
     BY <1>16 DEF FlipHeader
   <2>11. SyncedI'
     BY <1>16 DEF FlipHeader
+  <2>12. ReaderI'
+    BY <1>16 DEF FlipHeader
   <2> QED
-    BY <2>1, <2>2, <2>3, <2>4, <2>5, <2>6, <2>7, <2>8, <2>9, <2>10, <2>11
+    BY <2>1, <2>2, <2>3, <2>4, <2>5, <2>6, <2>7, <2>8, <2>9, <2>10, <2>11, <2>12
 <1>17. ASSUME UNCHANGED vars PROVE Inv'
   <2>1. TypeInv'
     BY <1>17 DEF vars, aux
@@ -498,16 +539,38 @@ LEMMA NextInv == Inv /\ [Next]_vars => Inv'
     BY <1>17 DEF vars, aux
   <2>11. SyncedI'
     BY <1>17 DEF vars, aux
+  <2>12. ReaderI'
+    BY <1>17 DEF vars, aux
   <2> QED
-    BY <2>1, <2>2, <2>3, <2>4, <2>5, <2>6, <2>7, <2>8, <2>9, <2>10, <2>11
+    BY <2>1, <2>2, <2>3, <2>4, <2>5, <2>6, <2>7, <2>8, <2>9, <2>10, <2>11, <2>12
 <1> QED
   BY <1>1, <1>2, <1>3, <1>4, <1>5, <1>6, <1>7, <1>8, <1>9, <1>10, <1>11, <1>12, <1>13, <1>14, <1>15, <1>16, <1>17 DEF Next
 
-THEOREM Safety == Spec => [](NoLostUpdate /\ Mutex /\ LockLifetime /\ SyncedEqualsView /\ CleanPagesFresh)
+LEMMA SubSingleton == \A c, S : S \subseteq {c} => Cardinality(S) <= 1
+<1> SUFFICES ASSUME NEW c, NEW S, S \subseteq {c} PROVE Cardinality(S) <= 1
+  OBVIOUS
+<1>1. IsFiniteSet({c}) /\ Cardinality({c}) = 1
+  BY FS_Singleton
+<1>2. IsFiniteSet(S) /\ Cardinality(S) <= Cardinality({c})
+  BY <1>1, FS_Subset
+<1> QED
+  BY <1>1, <1>2
+
+LEMMA InvReaderUniform == Inv => ReaderUniform
+<1> SUFFICES ASSUME Inv, NEW p \in Readers, NEW t \in Threads PROVE Cardinality(seen[p][t]) <= 1
+  BY DEF ReaderUniform
+<1>1. p \in Procs
+  BY DEF Procs
+<1>2. PICK c \in Int : seen[p][t] \subseteq {c}
+  BY <1>1 DEF Inv, ReaderI
+<1> QED
+  BY <1>2, SubSingleton
+
+THEOREM Safety == Spec => [](NoLostUpdate /\ Mutex /\ LockLifetime /\ ReaderUniform /\ SyncedEqualsView /\ CleanPagesFresh)
 <1>1. Inv => NoLostUpdate /\ Mutex /\ LockLifetime /\ SyncedEqualsView /\ CleanPagesFresh
   BY DEF Inv, TypeInv, DiskI, LockI, OpenI, SyncedI, NoLostUpdate, Mutex, LockLifetime, SyncedEqualsView, CleanPagesFresh, HasHandle, Unread, PcStates
 <1>2. Spec => []Inv
   BY InitInv, NextInv, PTL DEF Spec
 <1> QED
-  BY <1>1, <1>2, PTL
+  BY <1>1, <1>2, InvReaderUniform, PTL
 =============================================================================
